@@ -45,7 +45,7 @@ _COMPS = (ast.ListComp, ast.SetComp, ast.DictComp, ast.GeneratorExp)
 
 class Ev:
     """One thing that happens on a path.  kind: call | store | del | aug | raise | return | cond | iter / iterend (one turn of a loop
-    starts / is over; node = the loop) | obj (a local object that is
+    starts / is over; node = the loop, expr = the closed iterable when it is not a literal) | obj (a local object that is
     mutated later is created: expr = its name, value = what it is created from)."""
 
     __slots__ = ("kind", "expr", "value", "pol", "node", "maybe", "facts", "_key")
@@ -1177,7 +1177,7 @@ class Sym:
             for x in ast.walk(s.target):
                 if isinstance(x, ast.Name):
                     s1.envs[fr.fid][x.id] = ast.Name(id=self._objname(x.id, fr), ctx=ast.Load())
-            s1.add("iter", None, s)
+            s1.add("iter", it, s)
             for s2, sig, val in self._block(s.body, s1, fr):
                 s2.add("iterend", None, s)
                 if sig in _LEAVES:
